@@ -9,6 +9,11 @@ Pipeline of one check (see drivers/c13.py):
                (exact post-state, or the partial-effect relation for raising syncs) and (b) every requirement of the
                property ON THE REAL POST-STATE.  Verdicts come from (b), conformance from (a).
   random       seeded deeper random trees go through execute + validate as well (code -> spec).
+  scale        many tiny jobs x parallel in {False, 2, 3, True} (C13, C15).
+  command line `signac sync <source> [destination] [flags]`: TLC (MODE="cligen") generates projects and flag combinations, the
+               command-level outcome is CliFn = "flags -> arguments of destination.sync" ; SyncFn (Sync.tla 1d); every case runs the real
+               entry point through clifront.run_cli (own process, cwd = destination), TLC (MODE="clifile") judges exit status, message
+               class + payload, "Skipped key(s)", transfer statistics and the resulting tree; signatures are prefixed "cli:".
 Python only translates (spec value <-> files on disk), executes signac and reads TLC's verdicts.
 """
 import contextlib
@@ -32,7 +37,7 @@ PDOCFN = "signac_project_document.json"
 OLDTXT = '{"old": 1}'          # content of a stale roll-back copy (Sync.tla: OLDTXT)
 NOW = 9
 DEVIATIONS = ["DryCopyRaises", "DryCopytreeMkdirs", "DryNestedDocWrites", "ProjDeepDropped",
-              "CopytreeIgnoresExclude", "DircmpIgnoreList", "DryJobNeedsDstDir"]
+              "CopytreeIgnoresExclude", "DircmpIgnoreList", "DryJobNeedsDstDir", "CloneExcludeHitsSpecial", "CliFilterOnCwd"]
 REQS = {
     "C13": ["Superset", "FilesArrive", "DstOnlyUntouched", "SrcUntouched", "Idempotent", "NothingElse"],
     "C14": ["OverwriteIffStrategy", "ConflictLeavesFile", "DocOverwriteIffKeyStrategy", "DocRollbackExact"],
@@ -82,16 +87,31 @@ def nopts(o):
     o = dict(o)
     o["custom"] = sorted([list(p) for p in o["custom"]])
     o["keysel"] = _lst(o["keysel"])
-    o["exclude"] = {"on": bool(o["exclude"]["on"]), "names": _lst(o["exclude"]["names"])}
+    o["exclude"] = {"on": bool(o["exclude"]["on"]), "names": _lst(o["exclude"]["names"]), "sp": bool(o["exclude"].get("sp", False)),
+                    "doc": bool(o["exclude"].get("doc", False))}
     o["selection"] = {"on": bool(o["selection"]["on"]), "ids": _lst(o["selection"]["ids"])}
     o["order"], o["nord"], o["kord"] = list(o["order"]), list(o["nord"]), list(o["kord"])
     o["sps"] = {i: dict(_m(sp)) for i, sp in _m(o["sps"]).items()}
     return o
 
 
+def ncmd(m):
+    m = dict(m)
+    m["keysel"] = _lst(m["keysel"])
+    ex = m["exclude"]
+    m["exclude"] = {"on": bool(ex["on"]), "names": _lst(ex["names"]), "sp": bool(ex.get("sp", False)), "doc": bool(ex.get("doc", False))}
+    m["sel"] = dict(m["sel"], ids=_lst(m["sel"]["ids"]))
+    m["order"], m["nord"], m["kord"] = list(m["order"]), list(m["nord"]), list(m["kord"])
+    m["sps"] = {i: dict(_m(sp)) for i, sp in _m(m["sps"]).items()}
+    return m
+
+
 def ncase(c):
-    return {"id": c.get("id", 0), "src": nproj(c["src"]), "dst": nproj(c["dst"]), "o": nopts(c["o"]),
-            "pred": c.get("pred"), "feat": sorted(c.get("feat", []))}
+    out = {"id": c.get("id", 0), "src": nproj(c["src"]), "dst": nproj(c["dst"]), "o": nopts(c["o"]),
+           "pred": c.get("pred"), "feat": sorted(c.get("feat", []))}
+    if isinstance(c.get("cmd"), dict) and "strategy" in c["cmd"]:
+        out["cmd"] = ncmd(c["cmd"])
+    return out
 
 
 def dv_to_py(v):
@@ -260,6 +280,16 @@ def _regex_for(names, universe, what):
     return pat
 
 
+def exclude_pattern(ex, names):
+    """the regular expression for an exclude record of the specification ([on, names, sp, doc]); checked with re.match"""
+    if ex.get("sp") or ex.get("doc"):
+        pat = ".*"                                  # what `signac sync -x` (no pattern) passes
+        if not (ex.get("sp") and ex.get("doc")) or {n for n in names if re.match(pat, n)} != set(names) or not set(names) <= set(ex["names"]):
+            raise core.MachineryError("exclude record %r is not the pattern '.*' over %r" % (ex, sorted(names)))
+        return pat
+    return _regex_for(ex["names"], names, "exclude")
+
+
 def _all_names(d, acc):
     acc.update(d["f"]); acc.update(d["d"])
     for s in d["d"].values():
@@ -334,7 +364,7 @@ def call_sync(case, src_root, dst_root, parallel=None, control_order=True, varia
         doc_sync = {"update": ssync.DocSync.update, "nosync": ssync.DocSync.NO_SYNC, "copy": ssync.DocSync.COPY}[ds]
     exclude = None
     if o["exclude"]["on"]:
-        exclude = _regex_for(o["exclude"]["names"], names, "exclude")
+        exclude = exclude_pattern(o["exclude"], names)
         if "excludePattern" in o:                     # a realistic (prefix) pattern; the set of names it matches was computed with re.match
             exclude = o["excludePattern"]
             if {n for n in names if re.match(exclude, n)} != set(o["exclude"]["names"]):
@@ -461,14 +491,14 @@ def _consts(prop, mode, flags, ncase=1, fullopt=False, offset=0):
     return c
 
 
-def generate(ctx, prop, flags, total, fullopt, shards, invariants, label="gen", offset0=0, salt=0):
+def generate(ctx, prop, flags, total, fullopt, shards, invariants, label="gen", offset0=0, salt=0, mode="gen"):
     """MODE="gen": TLC enumerates `total` cases over `shards` processes, checks `invariants` on SyncFn, exports the cases."""
     per = (total + shards - 1) // shards
 
     def one(k):
         wd = os.path.join(ctx.work, "%s-%d" % (label, k))
         out = os.path.join(wd, "cases.ndjson")
-        cfgt = tlc.cfg(_consts(prop, "gen", flags, per, fullopt, offset0 + k * per), invariants=invariants, postcondition="Export", alias="DebugAlias")
+        cfgt = tlc.cfg(_consts(prop, mode, flags, per, fullopt, offset0 + k * per), invariants=invariants, postcondition="Export", alias="DebugAlias")
         r = tlc.run(SPEC, cfg_text=cfgt, workdir=wd, workers=1, seed=(ctx.seed + 7919 * k + 104729 * salt) % 10**6, env={"SYNC_OUT": out, "JAVA_TOOL_OPTIONS": JOPTS},
                     coverage=False, allow_violation=False, heap="3g")
         with open(out) as f:
@@ -485,7 +515,7 @@ def generate(ctx, prop, flags, total, fullopt, shards, invariants, label="gen", 
     return cases
 
 
-def validate(ctx, prop, flags, recs, label="file", shard_size=2500):
+def validate(ctx, prop, flags, recs, label="file", shard_size=2500, mode="file"):
     """MODE="file": TLC decides conformance and the property's requirements for every recorded execution."""
     if not recs:
         return {}
@@ -498,7 +528,7 @@ def validate(ctx, prop, flags, recs, label="file", shard_size=2500):
         with open(fin, "w") as f:
             for r in parts[k]:
                 f.write(json.dumps({x: r[x] for x in r if x not in ("pred", "feat")}) + "\n")
-        cfgt = tlc.cfg(_consts(prop, "file", flags), postcondition="Export")
+        cfgt = tlc.cfg(_consts(prop, mode, flags), postcondition="Export")
         r = tlc.run(SPEC, cfg_text=cfgt, workdir=wd, workers=1, env={"SYNC_IN": fin, "SYNC_OUT": fout, "JAVA_TOOL_OPTIONS": JOPTS}, coverage=False,
                     allow_violation=False, heap="4g")
         with open(fout) as f:
@@ -571,7 +601,9 @@ def _case(src_jobs, dst_jobs, **opts):
          "deep": False, "dryRun": False, "parallel": "no", "entry": "Project.sync", "jid": "j1", "order": ["j1", "j2"],
          "nord": sorted(["f", "g", "s", "tags", DOCFN, DOCFN + "~"]), "kord": ["k", "n", "old", "x", "y"], "sps": {"j1": {"a": "1"}, "j2": {"a": "2"}}}
     ex = opts.pop("exclude", None)
-    if ex:
+    if ex == "*":
+        o["exclude"] = {"on": True, "names": list(o["nord"]), "sp": True, "doc": True}
+    elif ex:
         o["exclude"] = {"on": True, "names": [ex]}
     o.update(opts)
     return {"id": 0, "src": {"jobs": {k: job(**v) for k, v in src_jobs.items()}, "pdoc": EMPTY_DOC, "pbak": False},
@@ -592,6 +624,8 @@ PROBES = {
                                lambda r: "f" in r["post"]["jobs"].get("j1", {"dir": {"f": {}}})["dir"]["f"]),
     "DircmpIgnoreList": (lambda: _case({"j1": dict(files={"tags": ("A", 1), "g": ("A", 1)})}, {"j1": {}}, entry="Job.sync"),
                          lambda r: "tags" not in r["post"]["jobs"]["j1"]["dir"]["f"]),
+    "CloneExcludeHitsSpecial": (lambda: _case({"j1": dict(files={"f": ("A", 1)})}, {}, exclude="*"),
+                                lambda r: "j1" in r["post"]["jobs"] and not r["post"]["jobs"]["j1"]["sp"]),
     "DryJobNeedsDstDir": (lambda: _case({"j1": dict(files={"f": ("A", 1)})}, {}, entry="Job.sync", dryRun=True),
                           lambda r: r["res"] == "FileNotFoundError"),
 }
@@ -601,6 +635,11 @@ def probe_deviations(ctx):
     work = ctx.mkdtemp("probe")
     flags = {}
     for name in DEVIATIONS:
+        if name == "CliFilterOnCwd":              # `signac sync -m -f a 1` where the matching job exists only in the source
+            c = _case({"j1": dict(files={"f": ("A", 1)})}, {})
+            c["cmd"] = cli_cmd(c["o"], sel={"kind": "filter", "ids": [], "fk": "a", "fv": "1"}, merge=True)
+            flags[name] = "j1" not in execute_cli(c, work)["post"]["jobs"]
+            continue
         mk, pred = PROBES[name]
         flags[name] = bool(pred(execute(mk(), work)))
     ctx.cov["deviation_flags"] = dict(flags)
@@ -801,6 +840,8 @@ def _paths(d, pfx, acc):
 
 # ---- verdicts ---------------------------------------------------------------------------------------------------
 def _describe(rec):
+    if "argv" in rec:
+        return "$ signac %s   -> exit %s, %s" % (" ".join(_short(a) for a in rec["argv"]), rec.get("exit"), rec["res"])
     o = rec["o"]
     call = {"Project.sync": "dst.sync(src, ...)", "sync_projects": "sync_projects(src, dst, ...)",
             "Job.sync": "dst_job.sync(src_job, ...)", "sync_jobs": "sync_jobs(src_job, dst_job, ...)"}[o["entry"]]
@@ -810,12 +851,12 @@ def _describe(rec):
     return "%s with %s -> %s" % (call, opts, rec["res"])
 
 
-def judge(ctx, prop, flags, recs, verdicts, source, stats):
+def judge(ctx, prop, flags, recs, verdicts, source, stats, prefix=""):
     """TLC's verdict per recorded execution -> violations (stated requirement false on the real execution) / spec drift"""
     per_sig = stats.setdefault("per_signature", {})
     for rec in recs:
         v = verdicts[rec["id"]]
-        o = rec["o"]
+        o = rec["o"] if "o" in rec else cli_view(rec["cmd"])
         feat = tuple(rec.get("feat") or ())
         row = (o["entry"], o["strategy"], o["docSync"], o["recursive"], o["exclude"]["on"], o["selection"]["on"], o["checkSchema"],
                o["deep"], o["dryRun"], o["parallel"])
@@ -826,11 +867,11 @@ def judge(ctx, prop, flags, recs, verdicts, source, stats):
             stats.setdefault("features", {}).setdefault(f, 0)
             stats["features"][f] += 1
         for t in v["tags"]:
-            sig = "%s:%s" % (t["req"], t["tag"])
+            sig = "%s%s:%s" % (prefix, t["req"], t["tag"])
             per_sig[sig] = per_sig.get(sig, 0) + 1
             if per_sig[sig] <= 2:
                 ctx.violation(sig, "requirement %s of %s is false on a real execution (%s): %s" % (t["req"], prop, t["tag"], _describe(rec)),
-                              {"prop": prop, "case": {k: rec[k] for k in ("id", "src", "dst", "o")}, "flags": flags,
+                              {"prop": prop, "case": {k: rec[k] for k in ("id", "src", "dst", "o", "cmd") if k in rec}, "flags": flags, "cli": bool(prefix),
                                "control_order": source != "random", "requirement": t["req"], "tag": t["tag"]})
         if v["why"]:
             stats["nonconformant"] = stats.get("nonconformant", 0) + 1
@@ -999,6 +1040,8 @@ def run_property(ctx, prop):
                           "results": sstats.get("results"), "nonconformant": sstats.get("nonconformant", 0)}
         if sstats.get("results", {}).get("ok", 0) != len(srecs) and not sstats.get("per_signature"):
             raise core.MachineryError("scale cases are meant to return: %r" % sstats.get("results"))
+    # 7. the command line front end
+    cli_phase(ctx, prop, flags, stats)
     stats["random"] = {"executions": len(rrecs), "results": rstats.get("results"), "nonconformant": rstats.get("nonconformant", 0),
                        "per_signature": rstats.get("per_signature")}
     ctx.cov["sync"] = stats
@@ -1009,13 +1052,228 @@ def run_property(ctx, prop):
 def replay(ctx, data):
     """re-run one violation: execute the case on the real tree, let TLC judge it, print both"""
     su_work = ctx.mkdtemp("replay")
-    rec = execute(data["case"], su_work, control_order=data.get("control_order", True))
     flags = probe_deviations(ctx)
-    v = validate(ctx, data["prop"], flags, [rec], label="replay")[rec["id"]]
+    if data.get("cli"):
+        rec = execute_cli(data["case"], su_work)
+        v = validate(ctx, data["prop"], flags, [rec], label="replay", mode="clifile")[rec["id"]]
+    else:
+        rec = execute(data["case"], su_work, control_order=data.get("control_order", True))
+        v = validate(ctx, data["prop"], flags, [rec], label="replay")[rec["id"]]
     print(_describe(rec))
     print("source     :", json.dumps(data["case"]["src"]))
     print("destination:", json.dumps(data["case"]["dst"]))
     print("after      :", json.dumps(rec["post"]), "raw tree unchanged:", rec["rawSame"], "source unchanged:", rec["srcSame"])
     print("TLC: conformance %s; violated requirements %s %s" % (v["why"] or "ok", v["viol"], v["tags"]))
+    if data.get("cli"):
+        print("exit status %s; skipped keys %s; statistics %s %s" % (rec["exit"], rec["skipped"], rec["nstat"], rec["stderr"]))
     hit = any(t["req"] == data.get("requirement") and t["tag"] == data.get("tag") for t in v["tags"]) if data.get("requirement") else bool(v["viol"])
     return 1 if hit else 0
+
+
+# ---- the command line front end: `signac sync <source> [destination] [flags]` (Sync.tla section 1d) -------------------
+def cli_cmd(o, **kw):
+    """a command record of the specification with every flag off (hand-written cases / probes)"""
+    m = {"strategy": "none", "viaU": False, "bad": "none", "keyMode": "default", "keysel": [], "recursive": False, "archive": False,
+         "perms": False, "times": False, "exclude": {"on": False, "names": [], "sp": False, "doc": False}, "deep": False,
+         "sizeOnly": False, "roundTimes": False, "dryRun": False, "merge": False, "force": False, "parallel": "no",
+         "sel": {"kind": "none", "ids": [], "fk": "", "fv": ""}, "stats": False, "destArg": False,
+         "order": o["order"], "nord": o["nord"], "kord": o["kord"], "sps": o["sps"]}
+    m.update(kw)
+    return m
+
+
+def cli_view(m):
+    """display / counting only: the flags in the vocabulary of the library-level option rows"""
+    return {"entry": "signac sync", "strategy": "update" if m["viaU"] else m["strategy"], "docSync": "key:" + m["keyMode"], "recursive": m["recursive"] or m["archive"],
+            "exclude": m["exclude"], "selection": {"on": m["sel"]["kind"] != "none", "ids": m["sel"]["ids"] or [m["sel"]["fk"], m["sel"]["fv"]]},
+            "checkSchema": not (m["merge"] or m["force"]), "deep": m["deep"], "dryRun": m["dryRun"], "parallel": m["parallel"],
+            "order": m["order"], "jid": "", "custom": [], "keysel": m["keysel"]}
+
+
+def _short(a):
+    a = str(a)
+    return a if len(a) < 60 else "..." + a[-40:]
+
+
+def cli_argv(m, src_root, dst_root, names, keynames, variant=0):
+    """command record -> argv as a user types it (pure spelling; which names a pattern matches is checked with re.match)"""
+    sps = m["sps"]
+    argv = ["sync", src_root] + ([dst_root] if m["destArg"] else [])
+    bad = m["bad"]
+    if m["viaU"]:
+        argv.append("-u" if variant % 2 else "--update")
+        if bad == "u+s":
+            argv += ["-s", "never"]
+    elif m["strategy"] != "none":
+        argv += ["-s" if variant % 2 else "--strategy", m["strategy"]]
+        if bad == "u+s":
+            argv.append("-u")
+    elif bad == "u+s":
+        argv += ["-u", "-s", "always"]
+    if bad == "two-keys":
+        argv += ["--all-keys", "--no-keys"]
+    elif m["keyMode"] == "all":
+        argv.append("--all-keys")
+    elif m["keyMode"] == "none":
+        argv.append("--no-keys")
+    elif m["keyMode"] == "regex":
+        argv += ["-k", _regex_for(set(m["keysel"]), set(keynames) | set(m["keysel"]), "key")]
+    if bad == "t-no-p":
+        argv.append("-t")
+    else:
+        for flag, on in (("-r", m["recursive"]), ("-a", m["archive"]), ("-p", m["perms"]), ("-t", m["times"])):
+            if on:
+                argv.append(flag)
+    if m["deep"]:
+        argv.append("-I" if variant % 2 else "--ignore-times")
+    for flag, on in (("--size-only", m["sizeOnly"]), ("--round-times", m["roundTimes"]), ("-n" if variant % 2 else "--dry-run", m["dryRun"]),
+                     ("-m", m["merge"]), ("--force", m["force"])):
+        if on:
+            argv.append(flag)
+    if m["stats"]:
+        argv += ["--stats", "--json"]
+    if m["exclude"]["on"]:
+        pat = exclude_pattern(m["exclude"], names)
+        argv += ["-x"] if pat == ".*" else ["-x", pat]          # -x alone means ".*"
+    if m["parallel"] != "no":
+        argv += ["--parallel"] + ({"two": ["2"], "three": ["3"], "all": []}[m["parallel"]])
+    if m["sel"]["kind"] == "jobid":
+        argv += ["-j"] + [real_id(sps[t]) if t in sps else core.my_id({"no such job": t}) for t in m["sel"]["ids"]]
+    elif m["sel"]["kind"] == "filter":
+        argv += ["-f", m["sel"]["fk"], m["sel"]["fv"]]
+    return argv
+
+
+def parse_cli(code, out, err):
+    """exit status + what was printed -> the specification's tokens (message class, payload, skipped keys, statistics)"""
+    res, fn, keys, skipped, nstat = "unknown", "", [], [], -1
+    m = re.search(r"no strategy defined to synchronize keys:\n(.*)\n", err)
+    f = re.search(r"no strategy defined to synchronize files:\n.*?filename '(.*)' caused a conflict", err)
+    if "requires the -m/--merge option" in err:
+        res = "SchemaSyncConflict"
+    elif m:
+        res, keys = "DocumentSyncConflict", sorted(k.strip() for k in m.group(1).split(",") if k.strip())
+    elif f:
+        res, fn = "FileSyncConflict", f.group(1)
+    elif re.search(r"^Error: ", err, re.M):
+        res = "Error"
+    elif re.search(r"^Done\.$", err, re.M):
+        res = "ok"
+    m = re.search(r"^Skipped key\(s\): (.*)$", err, re.M)
+    if m:
+        skipped = sorted(k.strip() for k in m.group(1).split(",") if k.strip())
+    m = re.search(r"# Transfer statistics.*\n(\{.*\})", out)
+    if m:
+        nstat = int(json.loads(m.group(1))["num_files"])
+    return res, fn, keys, skipped, nstat
+
+
+def execute_cli(case, work):
+    """one command line case on the real entry point (clifront.run_cli: its own forked process, cwd = destination project)"""
+    from .clifront import run_cli
+    m, sps = case["cmd"], case["cmd"]["sps"]
+    base = tempfile.mkdtemp(prefix="cli-", dir=work)
+    try:
+        names, keynames = set([DOCFN]), set()
+        for P in (case["src"], case["dst"]):
+            _all_keynames(P["pdoc"], keynames)
+            for j in P["jobs"].values():
+                _all_names(j["dir"], names)
+                _all_keynames(j["doc"], keynames)
+        order = [real_id(sps[t]) for t in m["order"] if t in sps]
+        v = int(case.get("id", 0))
+
+        def once(a, b, cmd):
+            argv = cli_argv(cmd, a, b, names, keynames, v)
+            filecmp.clear_cache()
+            with _ListOrder(os.path.join(a, "workspace"), order):          # inherited by the forked command
+                code, out, err = run_cli(base, b, argv)
+            return argv, code, parse_cli(code, out, err), err
+
+        def fresh(tag):
+            a, b = os.path.join(base, tag + "-src"), os.path.join(base, tag + "-dst")
+            materialise(a, case["src"], sps)
+            materialise(b, case["dst"], sps)
+            return a, b
+        a, b = fresh("m")
+        sa0, sb0 = raw_snapshot(a), raw_snapshot(b)
+        argv, code, (res, fn, keys, skipped, nstat), err = once(a, b, m)
+        sa1, sb1 = raw_snapshot(a), raw_snapshot(b)
+        post = observe(b, sps)
+        rec = {"id": case.get("id", 0), "src": case["src"], "dst": case["dst"], "cmd": m, "argv": ["sync", "<src>"] + argv[2 + bool(m["destArg"]):],
+               "post": post, "res": res, "fn": fn, "keys": keys, "cons": [], "exit": code, "skipped": skipped, "nstat": nstat,
+               "stderr": err[-400:] if res in ("unknown", "Error") else "",
+               "srcSame": sa0 == sa1, "srcAfter": observe(a, sps), "rawSame": sb0 == sb1,
+               "post2": post, "res2": res, "seqPost": post, "seqRes": res}
+        if res == "ok" and not m["dryRun"]:
+            rec["res2"] = once(a, b, m)[2][0]
+            rec["post2"] = observe(b, sps)
+            if raw_snapshot(a) != sa0:
+                rec["srcSame"] = False
+        if m["parallel"] != "no":
+            a2, b2 = fresh("s")
+            rec["seqRes"] = once(a2, b2, dict(m, parallel="no"))[2][0]
+            rec["seqPost"] = observe(b2, sps)
+        return rec
+    finally:
+        shutil.rmtree(base, ignore_errors=True)
+
+
+def _exec_cli_chunk(arg):
+    work, cases = arg
+    return [execute_cli(c, work) for c in cases]
+
+
+def cli_phase(ctx, prop, flags, stats):
+    """spec -> code over the command line: TLC generates (projects, flags), checks the requirements on CliFn = flags ; SyncFn,
+    every case is run through the real `signac sync`, TLC judges exit status, messages, statistics and the resulting tree"""
+    n = (300 if ctx.quick else 6000)
+    if os.environ.get("VERIF_SYNC_SCALE"):
+        n = max(40, int(n * float(os.environ["VERIF_SYNC_SCALE"])))
+    shards = 2 if ctx.quick else min(8, PROCS)
+    reqs = REQS[prop] + ["ExcusesOnlyWithDeviation"]
+    cases = generate(ctx, prop, flags, n, False, shards, reqs, label="cligen", salt=77, mode="cligen")
+    work = ctx.mkdtemp("cli")
+    k = max(1, min(len(cases), PROCS * 4))
+    recs = [r for ch in core.pmap(_exec_cli_chunk, [(work, cases[i::k]) for i in range(k)], procs=PROCS, chunks=1) for r in ch]
+    recs.sort(key=lambda r: r["id"])
+    feats = {c["id"]: c["feat"] for c in cases}
+    for r in recs:
+        r["feat"] = feats[r["id"]]
+    ver = validate(ctx, prop, flags, recs, label="clifile", mode="clifile")
+    cst = {}
+    judge(ctx, prop, flags, recs, ver, "command line", cst, prefix="cli:")
+    flagcount = {}
+    for r in recs:
+        m = r["cmd"]
+        for f in ["viaU", "recursive", "archive", "perms", "times", "deep", "sizeOnly", "roundTimes", "dryRun", "merge", "force", "stats", "destArg"]:
+            flagcount[f] = flagcount.get(f, 0) + bool(m[f])
+        for f, val in (("strategy", m["strategy"]), ("key", m["keyMode"]), ("bad", m["bad"]), ("sel", m["sel"]["kind"]), ("parallel", m["parallel"]),
+                       ("exclude", "all" if m["exclude"]["sp"] else ("pattern" if m["exclude"]["on"] else "off"))):
+            flagcount["%s=%s" % (f, val)] = flagcount.get("%s=%s" % (f, val), 0) + 1
+    need = ["recursive", "archive", "times", "merge", "force", "stats", "destArg", "viaU", "key=all", "key=none", "key=regex", "sel=jobid", "sel=filter",
+            "exclude=all", "exclude=pattern", "bad=u+s", "bad=t-no-p", "bad=two-keys"] + (["deep", "dryRun", "sizeOnly", "parallel=two", "parallel=all"] if prop == "C15" else [])
+    missing = [f for f in need if not flagcount.get(f)]
+    rs = cst.get("results", {})
+    missing += [r for r in ("ok", "Error", "DocumentSyncConflict", "FileSyncConflict", "SchemaSyncConflict") if not rs.get(r)]
+    if missing:
+        raise core.MachineryError("vacuous command line phase: never exercised %s" % missing)
+    if rs.get("unknown"):
+        ctx.spec_drift("command line: %d outputs could not be classified" % rs["unknown"])
+    # binding self-test of this phase: a corrupted expectation (exit status, message class) must be rejected by TLC
+    good = next((r for r in recs if r["res"] == "ok" and not ver[r["id"]]["why"] and not ver[r["id"]]["viol"]), None)
+    st = {}
+    if good is not None:
+        bad1 = dict(json.loads(json.dumps(good)), id=1, exit=1)
+        bad2 = dict(json.loads(json.dumps(good)), id=2, res="FileSyncConflict", fn="f", exit=1)
+        sv = validate(ctx, prop, flags, [bad1, bad2], label="cli-selftest", mode="clifile")
+        st = {"exit status flipped": "CliExit" in sv[1]["viol"] or bool(sv[1]["why"]), "message class changed": bool(sv[2]["why"])}
+        if not all(st.values()):
+            raise core.MachineryError("command line binding self-test failed: %r" % st)
+        if isinstance(ctx.cov.get("binding_selftest"), dict):
+            ctx.cov["binding_selftest"].update({"cli: " + k: v for k, v in st.items()})
+    for r in recs[:2]:
+        ctx.sample({"source": "command line", "call": _describe(r), "src": r["src"], "dst": r["dst"], "post": r["post"],
+                    "tlc": {k: ver[r["id"]][k] for k in ("why", "viol")}})
+    stats["cli"] = {"executions": len(recs), "results": rs, "flags": flagcount, "nonconformant": cst.get("nonconformant", 0),
+                    "per_signature": cst.get("per_signature"), "nonconformant_examples": cst.get("nonconformant_examples", [])[:3]}
